@@ -17,13 +17,12 @@ from pathlib import Path
 from . import core
 from . import c12 as H
 
-SIG_BLANK = "C02:hint span outside the stored listing: text with a blank first line or an empty/blank last line (hints numbered before strip)"
-SIG_EMPTYHINT = "C02:hint span outside the stored listing: a line made only of an empty hint comment is swallowed after numbering"
+SIG_RESIDUAL = ("C02:hint span outside the stored listing: hint alone on a line separated from the code by a blank line at "
+                "the beginning/end of the text")
 SIG_ASYNC = "C02:decorated async def (AsyncFunctionDef missing from the body-last reordering): start > end"
 SIG_LONE = "C02:no meta/program for a program whose flat AST has a single _pos line (lone pass / import)"
 SIG_EMPTYPROG = "C02:comment-only program: ast_construction:EmptyProgramError on 0-0 while the stored source is not empty"
 SIG_POSSTR = "C02:string literal containing flat-AST-looking text with _pos= (pos_to_span ValueError)"
-SIG_WHOLESPAN = H.SIG_WHOLESPAN.replace("C12:", "C02:")
 
 
 def parse_spans(cell):
@@ -69,11 +68,11 @@ def classify_program(stored, raw):
     lines = raw.split("\n")
     if re.search(r"(?m)^\s*@.*\n\s*async\s+def\b", stored):
         return SIG_ASYNC
-    kept = [l for l in lines if not re.match(r"\s*# paroxython: .", l)]  # isolated hints are removed first
-    if lines[0].strip() == "" or lines[-1].strip() == "" or (kept and (kept[0].strip() == "" or kept[-1].strip() == "")):
-        return SIG_BLANK
-    if any(re.fullmatch(r"\s*# paroxython:\s*", l) for l in lines):
-        return SIG_EMPTYHINT
+    # what get_program numbers: markers normalised (approximated), blank ends trimmed, isolated hints removed
+    text = re.sub(r"\A(\s*\n)+|\s+\Z", "", "\n".join(re.sub(r"(?i)#\s*paroxython\s*:\s*", "# paroxython: ", l) for l in lines))
+    kept = [l for l in text.split("\n") if not re.match(r"\s*# paroxython:(?: (.*))?$", l)]
+    if kept and (kept[0].strip() == "" or kept[-1].strip() == ""):
+        return SIG_RESIDUAL
     return None
 
 
@@ -154,7 +153,7 @@ def stream_hint_spans(ctx, impl, drv):
 
 
 GARBAGE = ["x = (1,", "def f(:", "x = 1\n  y = 2", "'abc", "x = \"\"\"abc", "1 +", "if x", "\x00", "print 'a'", "a = 1\n\n\nb = (",
-           "class A\n    pass", "return", "x = 1;;", "\tx = 1\n        y = 2", "lambda: (yield)", "x = 0777", "f(**k, *a)"]
+           "class A\n    pass", "return", "# only a comment", "# a\n\n# b", "", "x = 1;;", "\tx = 1\n        y = 2", "lambda: (yield)", "x = 0777", "f(**k, *a)"]
 
 
 def stream_error_span(ctx, impl, drv):
@@ -179,9 +178,6 @@ def stream_error_span(ctx, impl, drv):
             continue
         if not (len(labels) == 1 and labels[0].name.startswith("ast_construction:")):
             ctx.dist("error-span:parsable")
-            continue
-        if labels[0].name.endswith("EmptyProgramError"):
-            ctx.dist("error-span:empty-program")
             continue
         sp = labels[0].spans[0]
         ctx.count("error-span", src, nontrivial=True)
@@ -330,8 +326,7 @@ def check_spans(ctx, drv, entry, stored, named_spans, raw, viol):
     if "0" in ok["r"]:
         bad = [(nm, sp) for (nm, sp), b in zip(flat, ok["r"]) if b == "0"]
         if all(nm.endswith("EmptyProgramError") for nm, _ in bad):
-            sig = SIG_EMPTYPROG if parsable(stored) is None and all(
-                l.strip() == "" or l.strip().startswith("#") for l in stored.split("\n")) else None
+            sig = None  # repaired (F28): a recurrence is an unknown violation
         else:
             sig = classify_program(stored, raw)
         viol.append((sig, entry, raw, stored, bad[:4], f"nlines={ok['nlines']}"))
